@@ -35,6 +35,8 @@ def generate(tier, seed, work, stats):
     cases = c08.grammar_cases(tier, seed, work, stats, families(tier), c08.POOLS)
     for prods in c08.random_grammars(1500 if tier == "quick" else 20000, seed + 12):
         cases.append(dict(prods=prods, vpool="upper", tpool="ab", family="random"))
+        if len(cases) % 10 == 0:       # the same productions in a grammar object without start symbol (empty language)
+            cases.append(dict(prods=prods, vpool="upper", tpool="ab", family="random-no-start-symbol", nostart=True))
     for c in cases:
         c["L"] = L(tier)
     cases += [c for c in core.record_tests(["/repo/pyformlang"], work, {"is_empty", "is_finite", "get_generating_symbols", "get_nullable_symbols", "get_reachable_symbols"}, stats) if "G" in c["recorded"][0]]
@@ -81,7 +83,7 @@ def _maybe_finite(prods):
 
 def replay(case):
     from harness import cfgh, guard
-    g, start, tagged = cfgh.make(case["prods"], case["vpool"], case["tpool"], declare=case.get("declare", False), container=case.get("container"))
+    g, start, tagged = cfgh.make(case["prods"], case["vpool"], case["tpool"], declare=case.get("declare", False), container=case.get("container"), nostart=bool(case.get("nostart")))
     G = cfgh.project(g)
     evs = [{"op": "new", "G": G, "start": start, "prods": tagged}]
     evs.append(cfgh.bool_event("is_empty", G, guard.call(g.is_empty)))
@@ -93,7 +95,7 @@ def replay(case):
         ns.append(-1)
     for n in ns:
         # a fresh object per enumeration bound: history effects (cached normal form) belong to C19
-        g2, _, _ = cfgh.make(case["prods"], case["vpool"], case["tpool"], declare=case.get("declare", False), container=case.get("container"))
+        g2, _, _ = cfgh.make(case["prods"], case["vpool"], case["tpool"], declare=case.get("declare", False), container=case.get("container"), nostart=bool(case.get("nostart")))
         r = guard.take(lambda: g2.get_words(n), 600, timeout=3.0)
         ev = {"op": "get_words", "G": G, "n": n, "K": 30, "items": [], "status": r[0], "exhausted": False}
         if r[0] == "ok":
